@@ -529,7 +529,10 @@ with py_validate (E : env) (d : desc) (v : pv) {struct d} : vres :=
           else match oracle E (100 + cls) v with
                | Some w => Accept w
                | None => if isinstance E v cls then Accept v
-                         else if mode =? 1 then Reject else Accept dflt
+                         else if mode =? 1 then Reject
+                         else Accept PNone      (* 3568: self.default_value — the Instance's OWN default (None for
+                                                   Instance(K, adapt='default')), whereas the compiled path returns
+                                                   default_value_for(the trait being assigned) = dflt *)
                end
       end
   | DSelf an =>                                                 (* This.validate / validate_none 961-971 *)
